@@ -73,8 +73,12 @@ func (a *activityManager) BecomeLeader() error {
 	if err := a.createActivityStream(); err != nil {
 		return err
 	}
-	a.leadershipLostCh = make(chan struct{})
-	a.startGoroutine(a.dispatch)
+	// The dispatcher gets its own reference to the channel: this field is
+	// replaced by the next BecomeLeader while an earlier dispatcher may still
+	// be running.
+	leadershipLostCh := make(chan struct{})
+	a.leadershipLostCh = leadershipLostCh
+	a.startGoroutine(func() { a.dispatch(leadershipLostCh) })
 	return nil
 }
 
@@ -85,8 +89,11 @@ func (a *activityManager) BecomeFollower() error {
 		return nil
 	}
 
+	// Leadership can be lost again before BecomeLeader was reached (e.g. the
+	// promotion failed early), so make sure the channel is closed only once.
 	if a.leadershipLostCh != nil {
 		close(a.leadershipLostCh)
+		a.leadershipLostCh = nil
 	}
 	return nil
 }
@@ -95,14 +102,16 @@ func (a *activityManager) BecomeFollower() error {
 // metadata leader. It handles publishing events to the activity stream as they
 // are committed to the Raft log. Events are always published in the order in
 // which they were committed to the log.
-func (a *activityManager) dispatch() {
+func (a *activityManager) dispatch(leadershipLostCh <-chan struct{}) {
 	var (
 		raftNode = a.getRaft()
 		index    = a.LastPublishedRaftIndex() + 1
 	)
 	for {
 		select {
-		case <-a.leadershipLostCh:
+		case <-leadershipLostCh:
+			return
+		case <-a.shutdownCh:
 			return
 		default:
 		}
@@ -113,7 +122,7 @@ func (a *activityManager) dispatch() {
 			select {
 			case <-a.commitCh:
 				continue
-			case <-a.leadershipLostCh:
+			case <-leadershipLostCh:
 				return
 			case <-a.shutdownCh:
 				return
@@ -121,6 +130,19 @@ func (a *activityManager) dispatch() {
 		}
 		log := new(raft.Log)
 		if err := raftNode.store.GetLog(index, log); err != nil {
+			// The entry may have been compacted away by a snapshot (e.g. the
+			// snapshot was written by a version which did not record the last
+			// published index). Resume from the oldest entry still in the log.
+			if first, ferr := raftNode.store.FirstIndex(); err == raft.ErrLogNotFound && ferr == nil && first > index {
+				index = first
+				continue
+			}
+			select {
+			case <-a.shutdownCh:
+				// The log store is closed while the server shuts down.
+				return
+			default:
+			}
 			panic(err)
 		}
 		if log.Type != raft.LogCommand {
@@ -136,7 +158,7 @@ func (a *activityManager) dispatch() {
 			select {
 			case <-time.After(backoff):
 				goto RETRY
-			case <-a.leadershipLostCh:
+			case <-leadershipLostCh:
 				return
 			case <-a.shutdownCh:
 				return
